@@ -63,6 +63,7 @@ type HistCfg struct {
 	FreshPct          int  // percent of cases that start without any commit (default 15 via histCheck)
 	ReflogAfter       bool // run `reflog` after every invocation and compare with the listing before
 	CatTrees          bool // `cat-file -p` every tree of a new commit
+	AbsRefine         bool // compare abs(state) around every command with the abstract state machine
 
 }
 
@@ -274,6 +275,12 @@ func (h *Hist) X(tz int, args ...string) *Trans {
 		}
 		h.viols = append(h.viols, Finding{Kind: "spec-violation", Clause: v.Clause, Step: t.StepNo, Impl: res.Class,
 			Detail: v.Detail + " | cmd: goit " + strings.Join(args, " ") + " | stderr: " + clip(strings.TrimSpace(res.Stderr), 200), Sig: sig})
+	}
+	if h.cfg.AbsRefine {
+		if d := deriveAbsLine(t); d != nil {
+			d.Step = t.StepNo
+			h.derived = append(h.derived, *d)
+		}
 	}
 	if d := deriveCmdLine(t); d != nil {
 		d.Step = t.StepNo
